@@ -366,9 +366,15 @@ impl<'de> Deserialize<'de> for Image {
                         "missing size".to_owned(),
                     )));
                 };
-                let expected_size = channels * size.height * size.width;
+                // size comes from the document and can be arbitrary large
+                let expected_size = size
+                    .height
+                    .checked_mul(size.width)
+                    .and_then(|area| area.checked_mul(channels));
                 let data_size = data.len();
-                if data_size != expected_size {
+                if Some(data_size) != expected_size {
+                    let expected_size = expected_size
+                        .map_or_else(|| "<overflow>".to_owned(), |size| size.to_string());
                     return Err(de::Error::custom(Error::ParseError(
                         "Image",
                         format!(
